@@ -1261,3 +1261,14 @@ Proof.
   pose proof (construct_only_ok _ _ _ Hf Hc) as ->. exists w. split; [reflexivity|].
   apply (construct_base _ _ Hf Hc).
 Qed.
+
+(* after construction there is always a state *)
+Theorem run_started c es w : cf_fault c = None -> run c es = Some w -> st w <> None.
+Proof.
+  intros Hf Hrun. unfold run in Hrun.
+  destruct (construct_process c) as [r w1] eqn:Hc.
+  pose proof (construct_only_ok _ _ _ Hf Hc) as ->. injection Hrun as <-.
+  destruct (construct_base _ _ Hf Hc) as (HR & Hw & Hl).
+  pose proof (R_started _ _ (run_from_R w1 w1 es HR)) as Hs. unfold started, cur_label in Hs.
+  intro X. rewrite X in Hs. apply Hs. reflexivity.
+Qed.
